@@ -415,6 +415,25 @@ func genC11(seed uint64) *Scenario {
 	if len(sc.WriteStalls) > 0 {
 		sc.Class = "faulty"
 	}
+	// a slow peer that lets one write run into the 10 s deadline, with or without part of the
+	// data accepted: the library ends the process by design (log.Fatalf); what reached the
+	// wire until then must still be whole frames in order, except for the cut-off tail
+	if r.Chance(0.06) {
+		tot := 0
+		for _, p := range sc.Producers {
+			tot += len(p.Msgs)
+		}
+		if tot > 0 {
+			if sc.WriteStalls == nil {
+				sc.WriteStalls = make([]int, tot+1)
+			}
+			sc.WriteStalls[r.Intn(tot)] = 20_000_000
+			if r.Chance(0.7) {
+				sc.PartialWrite = 1 + r.Intn(70000)
+			}
+			sc.Class = "faulty"
+		}
+	}
 	// some inbound traffic in a third of the runs (full duplex), never a failure: C11 has no fault sequences
 	if r.Chance(0.3) {
 		genInbound(r, sc, false, genSimpleFrame)
